@@ -49,6 +49,23 @@ ReachFrom(G, n, acc) ==
   ELSE ReachFrom(G, n - 1, acc)
 Live(G) == IF Len(G) = 0 THEN {} ELSE ReachFrom(G, Len(G), {OutNode(G)})
 
+\* Nodes whose VALUE the output certainly depends on, as far as structure tells: like Live, but the components of a
+\* tuple / named tuple / vector / zip / array-to-vector node are not followed when the node is only reached through a
+\* getter -- tuple_get(create_tuple(a, b), 0) needs a and not b, and the meta-operation pass rewrites it to a, after
+\* which b (a PRF value, an annotated node) is rightly dropped although the output "depends" on it syntactically.
+\* (An under-approximation: a component that the getter does select is not counted either; such a node is then covered
+\* by the clauses on mapped nodes and by InvMeaning.)
+ComponentGetters == {"TupleGet", "NamedTupleGet", "VectorGet"}
+Containers == {"CreateTuple", "CreateNamedTuple", "CreateVector", "Zip", "ArrayToVector"}
+RECURSIVE StrictReachFrom(_, _, _)
+StrictReachFrom(G, n, acc) ==
+  IF n = 0 THEN acc
+  ELSE IF n \in acc
+       THEN StrictReachFrom(G, n - 1, acc \cup {G[n].deps[k] : k \in {kk \in 1..Len(G[n].deps) :
+                                  ~(G[n].op \in ComponentGetters /\ G[G[n].deps[kk]].op \in Containers)}})
+       ELSE StrictReachFrom(G, n - 1, acc)
+StrictLive(G) == IF Len(G) = 0 THEN {} ELSE StrictReachFrom(G, Len(G), {OutNode(G)})
+
 ---------------------------------------------------------------------------
 (* C04: freshness of randomness through the optimiser *)
 
@@ -66,7 +83,7 @@ Fresh(c) ==
   \* every randomising / PRF node of `after` comes from exactly one such node of `before` (no duplication, no invention)
   /\ \A n \in 1..Len(A) : (IsRnd(A[n]) \/ IsPrfOp(A[n])) => Cardinality(RandPre(c, n)) = 1
   \* one may be dropped only if the output does not depend on it
-  /\ \A o \in Live(B) : (IsRnd(B[o]) \/ IsPrfOp(B[o])) => o \in Mapped(c)
+  /\ \A o \in StrictLive(B) : (IsRnd(B[o]) \/ IsPrfOp(B[o])) => o \in Mapped(c)
   \* PRF counters stay pairwise distinct if they were
   /\ (\A a, b \in 1..Len(B) : (a # b /\ IsPrfOp(B[a]) /\ IsPrfOp(B[b])) => B[a].iv # B[b].iv)
        => (\A a, b \in 1..Len(A) : (a # b /\ IsPrfOp(A[a]) /\ IsPrfOp(A[b])) => A[a].iv # A[b].iv)
@@ -90,7 +107,7 @@ SendSet(r) == {r.sends[k] : k \in 1..Len(r.sends)}
 \* no send marker appears on a node none of whose preimages carried it
 Sends(c) ==
   LET B == Before(c)  A == After(c) IN
-  /\ \A o \in Live(B) : SendSet(B[o]) # {} => (o \in Mapped(c) /\ SendSet(B[o]) \subseteq SendSet(A[Image(c, o)]))
+  /\ \A o \in StrictLive(B) \cup Mapped(c) : SendSet(B[o]) # {} => (o \in Mapped(c) /\ SendSet(B[o]) \subseteq SendSet(A[Image(c, o)]))
   /\ \A n \in 1..Len(A) : \A s \in SendSet(A[n]) : \E o \in Pre(c, n) : s \in SendSet(B[o])
 
 \* the recorded type of every node equals the type re-inferred after a serde round trip, and equals OpType
